@@ -11,6 +11,7 @@ import Postcard.Model.SchemaFmt
 import Postcard.Model.SchemaSer
 import Postcard.Model.Cobs
 import Postcard.Model.Crc
+import Postcard.Model.CrcDe
 import Postcard.Model.Accumulator
 import Postcard.Model.SexpMTy
 import Postcard.Model.Fixint
@@ -344,11 +345,11 @@ def handle (line : String) : String :=
       | none => "bad-op"
     | "crcde", [.atom alg, t, .atom h] =>
       match tyOfSexp t, bytesOfHex h with
-      | some t, some bs => withAlg alg (fun _ a nbytes => deAnswer (takeFromBytesCrc a nbytes (dec t) bs)) "bad-op"
+      | some t, some bs => withAlg alg (fun _ a nbytes => deAnswer (takeFromBytesCrcG a nbytes t bs)) "bad-op"
       | _, _ => "bad-op"
     | "crcdex", [.atom alg, t, .atom _paylen, .atom h] =>
       match tyOfSexp t, bytesOfHex h with
-      | some t, some bs => withAlg alg (fun _ a nbytes => deAnswer (takeFromBytesCrc a nbytes (dec t) bs)) "bad-op"
+      | some t, some bs => withAlg alg (fun _ a nbytes => deAnswer (takeFromBytesCrcG a nbytes t bs)) "bad-op"
       | _, _ => "bad-op"
     | "acc", (.atom n :: t :: chunks) =>
       match n.toNat?, tyOfSexp t, chunks.mapM (fun c => match c with | .atom h => bytesOfHex h | _ => none) with
